@@ -76,6 +76,8 @@ theorem step_pred_mono {kind : Nat → Kind} {s s' : State} {l : Label} (h : ste
     · split at h <;> simp at h; subst h; exact hp
   case send k =>
     split at h <;> simp at h; subst h; simp; left; exact hp
+  case bsend ps k =>
+    split at h <;> simp at h; subst h; simp; left; exact hp
   all_goals (split at h <;> simp at h; subst h; exact hp)
 
 theorem run_returned_mono {kind : Nat → Kind} {s s' : State} {ls : List Label} (h : run kind s ls = some s')
@@ -391,6 +393,379 @@ theorem later_send_is_behind {kind : Nat → Kind} {l₁ l₂ l₃ : List Label}
   rename_i hu
   exact this hu
 
+/-! ### (5) transport units carrying several messages (a POST body with a JSON-RPC batch)
+
+`bsend ps j`: `j` travels in one body with `ps` before it.  Proved for ALL runs: the body's messages
+are written — hence dispatched — in body order; a synchronous member finishes before a later member
+starts; the acknowledgement of the body (= `ret` of its members) is possible only when the members are
+queued, so whatever is sent after the acknowledgement is behind ALL of them. -/
+
+theorem step_after_mono {kind : Nat → Kind} {s s' : State} {l : Label} (h : step kind s l = some s')
+    {p : Nat × Nat} (hp : p ∈ s.after) : p ∈ s'.after := by
+  cases l <;> simp only [step] at h
+  case disp k =>
+    split at h
+    · split at h <;> simp at h; subst h; exact hp
+    · simp at h
+  case ret k =>
+    split at h
+    · simp at h
+    · split at h <;> simp at h; subst h; exact hp
+  case bsend ps k =>
+    split at h <;> simp at h; subst h; simp; left; exact hp
+  all_goals (split at h <;> simp at h; subst h; exact hp)
+
+theorem run_after_mono {kind : Nat → Kind} {s s' : State} {ls : List Label} (h : run kind s ls = some s')
+    {p : Nat × Nat} (hp : p ∈ s.after) : p ∈ s'.after := by
+  induction ls generalizing s with
+  | nil => simp [run] at h; subst h; exact hp
+  | cons l ls ih => obtain ⟨m, h1, h2⟩ := run_cons_some h; exact ih h2 (step_after_mono h1 hp)
+
+theorem step_bsend_after {kind : Nat → Kind} {s s' : State} {ps : List Nat} {p j : Nat}
+    (h : step kind s (.bsend ps j) = some s') (hp : p ∈ ps) : (p, j) ∈ s'.after := by
+  simp only [step] at h
+  split at h <;> simp at h
+  subst h
+  simp
+  right; exact hp
+
+theorem step_bsend_pred {kind : Nat → Kind} {s s' : State} {ps : List Nat} {p j : Nat}
+    (h : step kind s (.bsend ps j) = some s') (hp : p ∈ ps ∨ p ∈ s.returned) (hs : (kind p).sync = true) :
+    (p, j) ∈ s'.pred := by
+  simp only [step] at h
+  split at h <;> simp at h
+  subst h
+  simp
+  right
+  rcases hp with hp | hp
+  · right; exact ⟨hp, hs⟩
+  · left; exact ⟨hp, hs⟩
+
+/-- For ALL label lists: the messages of one body are handed to the session in body order — when `j`
+is written, every `p` that stands before it in the body has been written already. -/
+theorem batch_written_in_order {kind : Nat → Kind} {l₁ l₂ l₃ : List Label} {ps : List Nat} {p j : Nat} {s : State}
+    (h : run kind init (l₁ ++ .bsend ps j :: (l₂ ++ .write j :: l₃)) = some s) (hp : p ∈ ps) :
+    Label.write p ∈ l₁ ++ .bsend ps j :: l₂ := by
+  have h' : run kind init ((l₁ ++ .bsend ps j :: l₂) ++ .write j :: l₃) = some s := by
+    simpa [List.append_assoc] using h
+  obtain ⟨m, hm, hrest⟩ := run_append_some h'
+  obtain ⟨m2, hw, _⟩ := run_cons_some hrest
+  obtain ⟨s1, hs1, hrest1⟩ := run_append_some hm
+  obtain ⟨s2, hb, hrest2⟩ := run_cons_some hrest1
+  have haft : (p, j) ∈ m.after := run_after_mono hrest2 (step_bsend_after hb hp)
+  simp only [step] at hw
+  split at hw <;> simp at hw
+  rename_i hg
+  have := hg.2 (p, j) haft rfl
+  rcases written_has_write (inv_init kind) hm this with q | q
+  · simp [init] at q
+  · exact q
+
+/-- Order invariant for bodies: if `p` stands before `j` in one body and `j` has been written, then so
+has `p`, and while both wait in the receiver's queue `p` is ahead of `j`. -/
+structure BInv (s : State) : Prop where
+  ord : ∀ p j, (p, j) ∈ s.after → s.phase j ≠ .unsent → s.phase j ≠ .sending →
+    (s.phase p ≠ .unsent ∧ s.phase p ≠ .sending) ∧ (s.phase j = .queued → s.phase p = .queued → Ahead s.queue p j)
+
+theorem binv_init : BInv init := ⟨by intro p j h; simp [init] at h⟩
+
+theorem binv_step {kind : Nat → Kind} {s s' : State} {l : Label} (hinv : Inv kind s) (hb : BInv s)
+    (h : step kind s l = some s') : BInv s' := by
+  constructor
+  intro p j hpj
+  cases l <;> simp only [step] at h
+  case send k =>
+    split at h <;> simp at h
+    rename_i hu; subst h
+    simp only [setPhase_phase, setPhase_after, setPhase_queue] at hpj ⊢
+    have hjk : s.phase j ≠ .unsent → s.phase j ≠ .sending → j ≠ k ∧ p ≠ k := by
+      intro a b
+      have := (hb.ord p j hpj a b).1
+      exact ⟨by intro e; subst e; exact a hu, by intro e; subst e; exact this.1 hu⟩
+    by_cases e : j = k
+    · subst e; simp
+    · simp only [e, if_false]
+      intro a b
+      have hpk := (hjk a b).2
+      simp only [hpk, if_false]
+      exact hb.ord p j hpj a b
+  case bsend ps k =>
+    split at h <;> simp at h
+    rename_i hg; obtain ⟨hu, _⟩ := hg; subst h
+    simp only [setPhase_phase, setPhase_queue, List.mem_append, List.mem_map, Prod.mk.injEq] at hpj ⊢
+    rcases hpj with hpj | ⟨x, _, rfl, rfl⟩
+    · by_cases e : j = k
+      · subst e; simp
+      · simp only [e, if_false]
+        intro a b
+        have hpk : p ≠ k := by intro e2; subst e2; exact (hb.ord p j hpj a b).1.1 hu
+        simp only [hpk, if_false]
+        exact hb.ord p j hpj a b
+    · simp
+  case write k =>
+    split at h <;> simp at h
+    rename_i hg; obtain ⟨hu, hord⟩ := hg; subst h
+    simp only [setPhase_phase, setPhase_after, setPhase_queue] at hpj ⊢
+    by_cases e : j = k
+    · subst e
+      simp only [if_true]
+      intro _ _
+      have hw := hord (p, j) hpj rfl
+      have hpj' : p ≠ j := by intro e2; subst e2; exact hw.2 hu
+      simp only [hpj', if_false]
+      refine ⟨hw, fun _ hq => ahead_of_mem j ((hinv.qmem p).2 hq)⟩
+    · simp only [e, if_false]
+      intro a b
+      obtain ⟨h1, h2⟩ := hb.ord p j hpj a b
+      by_cases e2 : p = k
+      · subst e2; exact absurd hu h1.2
+      · simp only [e2, if_false]
+        exact ⟨h1, fun x y => ahead_snoc k (h2 x y)⟩
+  case ret k =>
+    split at h
+    · simp at h
+    · split at h <;> simp at h; subst h; exact hb.ord p j hpj
+  case disp k =>
+    split at h
+    · rename_i hd q hbusy hqueue
+      split at h <;> simp at h
+      rename_i e; subst e; subst h
+      simp only [setPhase_phase, setPhase_after] at hpj ⊢
+      have hnd : hd ∉ q := by have := hinv.qnodup; rw [hqueue] at this; exact (List.nodup_cons.1 this).1
+      have hph : s.phase hd = .queued := (hinv.qmem hd).1 (by rw [hqueue]; simp)
+      by_cases e : j = hd
+      · subst e
+        simp only [if_true]
+        intro _ _
+        obtain ⟨h1, h2⟩ := hb.ord p j hpj (by simp [hph]) (by simp [hph])
+        have hpj' : p ≠ j := by
+          intro e2; subst e2
+          have := h2 hph hph
+          rw [hqueue] at this
+          exact (ahead_cons this hnd).1 rfl
+        simp only [hpj', if_false]
+        exact ⟨h1, by simp⟩
+      · simp only [e, if_false]
+        intro a b
+        obtain ⟨h1, h2⟩ := hb.ord p j hpj a b
+        by_cases e2 : p = hd
+        · subst e2; simp
+        · simp only [e2, if_false]
+          refine ⟨h1, fun x y => ?_⟩
+          have := h2 x y
+          rw [hqueue] at this
+          rcases (ahead_cons this hnd).2 with r | r
+          · exact absurd r e2
+          · exact r
+    · simp at h
+  case cb k => split at h <;> simp at h; subst h; exact hb.ord p j hpj
+  case rel k =>
+    split at h <;> simp at h
+    rename_i hc; subst h
+    simp only [setPhase_phase, setPhase_after, setPhase_queue] at hpj ⊢
+    intro a b
+    have a' : s.phase j ≠ .unsent := by intro e; by_cases e2 : j = k <;> simp_all
+    have b' : s.phase j ≠ .sending := by intro e; by_cases e2 : j = k <;> simp_all
+    obtain ⟨h1, h2⟩ := hb.ord p j hpj a' b'
+    refine ⟨by by_cases e2 : p = k <;> simp_all, fun x y => ?_⟩
+    have x' : s.phase j = .queued := by by_cases e2 : j = k <;> simp_all
+    have y' : s.phase p = .queued := by by_cases e2 : p = k <;> simp_all
+    exact h2 x' y'
+  case start k =>
+    split at h <;> simp at h
+    rename_i hc; subst h
+    simp only [setPhase_phase, setPhase_after, setPhase_queue] at hpj ⊢
+    have hk : s.phase k ≠ .unsent ∧ s.phase k ≠ .sending := by rcases hc with ⟨e, _⟩ | e <;> simp [e]
+    intro a b
+    have a' : s.phase j ≠ .unsent := by intro e; by_cases e2 : j = k <;> simp_all
+    have b' : s.phase j ≠ .sending := by intro e; by_cases e2 : j = k <;> simp_all
+    obtain ⟨h1, h2⟩ := hb.ord p j hpj a' b'
+    refine ⟨by by_cases e2 : p = k <;> simp_all, fun x y => ?_⟩
+    have x' : s.phase j = .queued := by by_cases e2 : j = k <;> simp_all
+    have y' : s.phase p = .queued := by by_cases e2 : p = k <;> simp_all
+    exact h2 x' y'
+  case fin k =>
+    split at h <;> simp at h
+    rename_i hc; subst h
+    simp only [setPhase_phase, setPhase_after, setPhase_queue] at hpj ⊢
+    intro a b
+    have a' : s.phase j ≠ .unsent := by intro e; by_cases e2 : j = k <;> simp_all
+    have b' : s.phase j ≠ .sending := by intro e; by_cases e2 : j = k <;> simp_all
+    obtain ⟨h1, h2⟩ := hb.ord p j hpj a' b'
+    refine ⟨by by_cases e2 : p = k <;> simp_all, fun x y => ?_⟩
+    have x' : s.phase j = .queued := by by_cases e2 : j = k <;> simp_all
+    have y' : s.phase p = .queued := by by_cases e2 : p = k <;> simp_all
+    exact h2 x' y'
+
+theorem binv_run {kind : Nat → Kind} {s s' : State} {ls : List Label} (hinv : Inv kind s) (hb : BInv s)
+    (h : run kind s ls = some s') : BInv s' := by
+  induction ls generalizing s with
+  | nil => simp [run] at h; subst h; exact hb
+  | cons l ls ih =>
+    obtain ⟨m, h1, h2⟩ := run_cons_some h
+    exact ih (inv_step hinv h1) (binv_step hinv hb h1) h2
+
+/-- A message that is beyond the queue was handed to the dispatcher by a `disp` label. -/
+theorem beyond_has_disp {kind : Nat → Kind} {s s' : State} {ls : List Label} (h : run kind s ls = some s')
+    {i : Nat} (hd : s'.phase i ≠ .unsent ∧ s'.phase i ≠ .sending ∧ s'.phase i ≠ .queued) :
+    (s.phase i ≠ .unsent ∧ s.phase i ≠ .sending ∧ s.phase i ≠ .queued) ∨ Label.disp i ∈ ls := by
+  induction ls generalizing s with
+  | nil => simp [run] at h; subst h; left; exact hd
+  | cons l ls ih =>
+    obtain ⟨m, h1, h2⟩ := run_cons_some h
+    rcases ih h2 with hm | hm
+    · by_cases hl : l = .disp i
+      · right; simp [hl]
+      · left
+        cases l <;> simp only [step] at h1
+        case disp k =>
+          split at h1
+          · split at h1 <;> simp at h1
+            rename_i e; subst e; subst h1
+            simp only [setPhase_phase] at hm
+            split at hm
+            · rename_i e; subst e; simp at hl
+            · exact hm
+          · simp at h1
+        case ret k =>
+          split at h1
+          · simp at h1
+          · split at h1 <;> simp at h1; subst h1; exact hm
+        case cb k => split at h1 <;> simp at h1; subst h1; exact hm
+        case start k =>
+          split at h1 <;> simp at h1; subst h1
+          rename_i hc
+          simp only [setPhase_phase] at hm
+          split at hm
+          · rename_i e; subst e
+            rcases hc with ⟨e, _⟩ | e <;> simp [e]
+          · exact hm
+        all_goals (split at h1 <;> simp at h1; subst h1; simp only [setPhase_phase] at hm; split at hm <;> simp_all)
+    · right; exact List.mem_cons_of_mem _ hm
+
+/-- For ALL label lists: the messages of one body reach the dispatcher in body order — when `j` is
+dispatched, every `p` that stands before it in the body has been dispatched already (no other message,
+of this body or sent after its acknowledgement, can get between them and reverse them). -/
+theorem batch_dispatched_in_order {kind : Nat → Kind} {l₁ l₂ l₃ : List Label} {ps : List Nat} {p j : Nat} {s : State}
+    (h : run kind init (l₁ ++ .bsend ps j :: (l₂ ++ .disp j :: l₃)) = some s) (hp : p ∈ ps) :
+    Label.disp p ∈ l₁ ++ .bsend ps j :: l₂ := by
+  have h' : run kind init ((l₁ ++ .bsend ps j :: l₂) ++ .disp j :: l₃) = some s := by
+    simpa [List.append_assoc] using h
+  obtain ⟨m, hm, hrest⟩ := run_append_some h'
+  obtain ⟨m2, hdj, _⟩ := run_cons_some hrest
+  obtain ⟨s1, hs1, hrest1⟩ := run_append_some hm
+  obtain ⟨s2, hb, hrest2⟩ := run_cons_some hrest1
+  have haft : (p, j) ∈ m.after := run_after_mono hrest2 (step_bsend_after hb hp)
+  have hinv := inv_reachable hm
+  have hbinv := binv_run (inv_init kind) binv_init hm
+  simp only [step] at hdj
+  split at hdj
+  · rename_i hd q hbusy hqueue
+    split at hdj <;> simp at hdj
+    rename_i e; subst e
+    have hnd : hd ∉ q := by have := hinv.qnodup; rw [hqueue] at this; exact (List.nodup_cons.1 this).1
+    have hph : m.phase hd = .queued := (hinv.qmem hd).1 (by rw [hqueue]; simp)
+    obtain ⟨h1, h2⟩ := hbinv.ord p hd haft (by simp [hph]) (by simp [hph])
+    have hnq : m.phase p ≠ .queued := by
+      intro hq
+      have := h2 hph hq
+      rw [hqueue] at this
+      exact (ahead_cons this hnd).1 rfl
+    rcases beyond_has_disp hm ⟨h1.1, h1.2, hnq⟩ with q | q
+    · simp [init] at q
+    · exact q
+  · simp at hdj
+
+/-- For ALL label lists: a synchronous member of a body finishes before the handler of any later
+member of the same body starts. -/
+theorem batch_sync_end_before_later_start {kind : Nat → Kind} {l₁ l₃ : List Label} {ps : List Nat} {p j : Nat} {s : State}
+    (h : run kind init (l₁ ++ .bsend ps j :: (l₃ ++ [.start j])) = some s) (hp : p ∈ ps)
+    (hsync : (kind p).sync = true) : Label.fin p ∈ l₁ ++ .bsend ps j :: l₃ := by
+  have h' : run kind init ((l₁ ++ .bsend ps j :: l₃) ++ [.start j]) = some s := by
+    simpa [List.append_assoc] using h
+  obtain ⟨m, hm, hlast⟩ := run_append_some h'
+  obtain ⟨s1, hs1, hrest⟩ := run_append_some hm
+  obtain ⟨s2, hb, hrest⟩ := run_cons_some hrest
+  have hpr : (p, j) ∈ m.pred := run_pred_mono hrest (step_bsend_pred hb (Or.inl hp) hsync)
+  obtain ⟨s5, hstart, _⟩ := run_cons_some hlast
+  have hd := sync_finished_when_later_starts hm hpr hstart
+  rcases done_has_fin hm hd with q | q
+  · simp [init] at q
+  · exact q
+
+/-- For ALL label lists: the same for a body that is sent after the sending call (or the
+acknowledged body) of the synchronous message `i` returned. -/
+theorem sync_end_before_later_body_start {kind : Nat → Kind} {l₁ l₂ l₃ : List Label} {ps : List Nat} {i j : Nat} {s : State}
+    (h : run kind init (l₁ ++ .ret i :: (l₂ ++ .bsend ps j :: (l₃ ++ [.start j]))) = some s)
+    (hsync : (kind i).sync = true) :
+    Label.fin i ∈ l₁ ++ .ret i :: (l₂ ++ .bsend ps j :: l₃) := by
+  have h' : run kind init ((l₁ ++ .ret i :: (l₂ ++ .bsend ps j :: l₃)) ++ [.start j]) = some s := by
+    simpa [List.append_assoc] using h
+  obtain ⟨m, hm, hlast⟩ := run_append_some h'
+  obtain ⟨s1, hs1, hrest⟩ := run_append_some hm
+  obtain ⟨s2, hret, hrest⟩ := run_cons_some hrest
+  obtain ⟨s3, hs3, hrest⟩ := run_append_some hrest
+  obtain ⟨s4, hsend, hrest⟩ := run_cons_some hrest
+  have hr : i ∈ s3.returned := run_returned_mono hs3 (step_ret_returned hret)
+  have hpr : (i, j) ∈ m.pred := run_pred_mono hrest (step_bsend_pred hsend (Or.inr hr) hsync)
+  obtain ⟨s5, hstart, _⟩ := run_cons_some hlast
+  have hd := sync_finished_when_later_starts hm hpr hstart
+  rcases done_has_fin hm hd with q | q
+  · simp [init] at q
+  · exact q
+
+/-- The acknowledgement of a notification (for a body: of each of its notifications) is enabled only
+when the message is in the receiver's FIFO or beyond — an acknowledgement while a member of the body
+is still outside the queue is not a step of the model. -/
+theorem ack_requires_queued {kind : Nat → Kind} {s s' : State} {i : Nat}
+    (h : step kind s (.ret i) = some s') (hn : kind i = .note) :
+    s.phase i ≠ .unsent ∧ s.phase i ≠ .sending := by
+  simp only [step] at h
+  split at h
+  · simp at h
+  · split at h <;> simp at h
+    rename_i hok
+    rcases hok with ⟨_, h1, h2⟩ | ⟨h1, _⟩
+    · exact ⟨h1, h2⟩
+    · exact absurd hn h1
+
+/-- For ALL label lists: once notification `i` has been acknowledged, a body member `j` whose body is
+sent afterwards has not been written yet, so it is written — hence dispatched — after `i`. -/
+theorem later_body_is_behind {kind : Nat → Kind} {l₁ l₂ l₃ : List Label} {ps : List Nat} {i j : Nat} {s : State}
+    (h : run kind init (l₁ ++ .ret i :: (l₂ ++ .bsend ps j :: l₃)) = some s) (hn : kind i = .note) :
+    Label.write i ∈ l₁ ∧ Label.write j ∉ l₁ ++ .ret i :: l₂ := by
+  have h' : run kind init ((l₁ ++ [.ret i]) ++ (l₂ ++ .bsend ps j :: l₃)) = some s := by
+    simpa [List.append_assoc] using h
+  obtain ⟨m, hm, hrest⟩ := run_append_some h'
+  refine ⟨notify_returns_after_queued hm hn, ?_⟩
+  have h'' : run kind init ((l₁ ++ .ret i :: l₂) ++ .bsend ps j :: l₃) = some s := by
+    simpa [List.append_assoc] using h
+  obtain ⟨m2, hm2, hrest2⟩ := run_append_some h''
+  obtain ⟨m3, hsend, _⟩ := run_cons_some hrest2
+  intro hw
+  have := write_not_unsent hm2 hw
+  simp only [step] at hsend
+  split at hsend <;> simp at hsend
+  rename_i hg
+  exact this hg.1
+
+/-- Non-vacuity: a body of three notifications, acknowledged, then a fourth message. -/
+example : (run (fun _ => .note) init
+    [.send 0, .bsend [0] 1, .bsend [0, 1] 2, .write 0, .disp 0, .start 0, .write 1, .write 2, .ret 0, .ret 1, .ret 2,
+     .send 3, .write 3, .ret 3, .fin 0, .disp 1, .start 1, .fin 1, .disp 2, .start 2, .fin 2, .disp 3, .start 3]).isSome = true := by
+  decide
+
+/-- Counter-example for an early acknowledgement (202 written while the tail of the body is still
+outside the session's queue): the message sent after the acknowledgement overtakes the tail.  Such a
+trace is rejected by the monitor, and the early `ret` is not a step of the model; neither is a write
+of the tail out of body order. -/
+theorem early_body_ack_breaks_order :
+    holdsOn (fun _ => .note)
+      (visible [.send 0, .bsend [0] 1, .ret 0, .ret 1, .send 2, .start 0, .fin 0, .start 2, .fin 2, .start 1, .fin 1]) = false
+    ∧ run (fun _ => .note) init [.send 0, .bsend [0] 1, .write 0, .ret 0, .ret 1] = none
+    ∧ run (fun _ => .note) init [.send 0, .bsend [0] 1, .write 1] = none := by
+  refine ⟨?_, ?_, ?_⟩ <;> decide
+
 /-! ### the property monitor accepts every run of the model -/
 
 theorem pred_done_at_start {kind : Nat → Kind} {s s' : State} (hinv : Inv kind s) {i j : Nat}
@@ -429,10 +804,20 @@ theorem sim_step {kind : Nat → Kind} {s s' : State} {l : Label} {m : Mon} (hin
     by_cases e : a = k
     · subst e; simp; intro hf; have := (hsim.fin a).1 hf; simp [hu] at this
     · simp [e]; exact hsim.fin a
+  case bsend ps k =>
+    simp only [step] at h
+    split at h <;> simp at h
+    rename_i hg; obtain ⟨hu, _⟩ := hg; subst h
+    refine ⟨by simp [Mon.stepL, Label.vis, Mon.step, hsim.ret], by simp [Mon.stepL, Label.vis, Mon.step, hsim.ret, hsim.pred], ?_, by simp [Mon.stepL, Label.vis, Mon.step, hsim.ok]⟩
+    intro a
+    simp only [Mon.stepL, Label.vis, Mon.step, setPhase_phase]
+    by_cases e : a = k
+    · subst e; simp; intro hf; have := (hsim.fin a).1 hf; simp [hu] at this
+    · simp [e]; exact hsim.fin a
   case write k =>
     simp only [step] at h
     split at h <;> simp at h
-    rename_i hu; subst h
+    rename_i hg; obtain ⟨hu, _⟩ := hg; subst h
     refine ⟨hsim.ret, hsim.pred, ?_, hsim.ok⟩
     intro a
     simp only [Mon.stepL, Label.vis, setPhase_phase]
@@ -644,6 +1029,12 @@ theorem ephemeral_early_ack_breaks_order :
 returned, starts while the handler of 0 is still running. -/
 example : holdsOn (fun k => if k = 0 then .note else .call)
     [.snd 0, .ret 0, .snd 1, .beg 0, .beg 1, .fin 0, .fin 1] = false := by decide
+
+/-- …it rejects a trace in which a member of a body starts while an earlier synchronous member of the
+same body is still running, and accepts the body handled in order. -/
+example : holdsOn (fun _ => .note) [.snd 0, .bsnd [0] 1, .beg 0, .beg 1, .fin 0, .fin 1] = false
+    ∧ holdsOn (fun _ => .note) [.snd 0, .bsnd [0] 1, .beg 0, .fin 0, .beg 1, .fin 1, .ret 0, .ret 1] = true := by
+  constructor <;> decide
 
 /-- …and does not demand anything of two calls. -/
 example : holdsOn (fun _ => .call) [.snd 0, .snd 1, .beg 1, .fin 1, .beg 0, .fin 0, .ret 0, .ret 1] = true := by decide
